@@ -142,7 +142,8 @@ pub fn run(ctx: &mut Ctx) {
         return;
     }
     // alphabet of class representatives: caret, digits, every escape letter, every reserved char, codepage letters, others
-    let alpha: Vec<char> = "^18vacdsqtlrh|*:\\/?\"<>#LK x".chars().collect();
+    // … plus a non-ASCII *numeric* character (a digit to `char::is_numeric`, not a colour) and a wrong-case escape letter
+    let alpha: Vec<char> = "^18vacdsqtlrh|*:\\/?\"<>#LK x\u{b2}V".chars().collect();
     let maxlen = if ctx.quick() { 4 } else { 5 };
     let mut total = 0u64;
     for len in 0..=maxlen {
@@ -174,7 +175,7 @@ pub fn run(ctx: &mut Ctx) {
     }
     ctx.exhaustive_domains.push(format!("all {} strings over {{^ 1 v | L}} up to length {} (wire clause up to length 6)", total2, maxlen2));
     // random longer Unicode strings
-    let pool: Vec<char> = "^^^0189vacdsqtlrh|*:\\/?\"<>#LGCETBJHSK abcXYZ_-.,é€ěšЖяαβğşąłıİ日本語한국어中文ﾏ¥訖\u{1f600}\u{fffd}\u{0}".chars().collect();
+    let pool: Vec<char> = "^^^0189vacdsqtlrh|*:\\/?\"<>#LGCETBJHSK abcXYZ_-.,\u{b2}\u{bd}\u{ff15}\u{663}é€ěšЖяαβğşąłıİ日本語한국어中文ﾏ¥訖\u{1f600}\u{fffd}\u{0}".chars().collect();
     let n = if ctx.quick() { 4000 } else { 400_000 };
     for _ in 0..n {
         let len = ctx.rng.below(40) as usize;
